@@ -236,7 +236,50 @@ fn gen_cap(rng: &mut Rng, ty: Ty, min_size: usize, recent: &mut Vec<usize>, max_
     cap
 }
 
+/// Miri runs 10^3-10^4x slower: 2 threads, 12 operations, small buffers of
+/// one layout class, biased so that a pool hit is likely.
+fn gen_history_miri(rng: &mut Rng) -> History {
+    let min_size = *rng.choose(&[Some(0usize), Some(16), Some(32)]);
+    let class: &[Ty] = match rng.below(5) {
+        0 => &[Ty::U8, Ty::I8],
+        1 => &[Ty::F32, Ty::I32, Ty::U32],
+        2 => &[Ty::U64, Ty::F64],
+        3 => &[Ty::F32x4, Ty::U128],
+        _ => &[Ty::U16, Ty::U8x3, Ty::F32],
+    };
+    let caps = [8usize, 8, 9, 12, 16];
+    let mut threads = Vec::new();
+    for _ in 0..2 {
+        let mut ops = Vec::new();
+        let mut held = 0;
+        for _ in 0..6 {
+            let r = rng.below(10);
+            if held == 0 || r < 5 {
+                let ty = *rng.choose(class);
+                let cap = if rng.chance(1, 10) { 0 } else { *rng.choose(&caps) };
+                ops.push(if rng.chance(1, 8) { Op::Fresh(ty, cap) } else { Op::Alloc(ty, cap) });
+                held += 1;
+            } else if r < 9 {
+                let g = *rng.choose(&[Give::Add, Give::Add, Give::AddFull, Give::PoolRef, Give::Extract, Give::Drop]);
+                ops.push(Op::Give(g, rng.below(2)));
+                held -= 1;
+            } else if rng.bool() {
+                ops.push(Op::Send(0));
+                held -= 1;
+            } else {
+                ops.push(Op::Recv);
+                held += 1;
+            }
+        }
+        threads.push(ops);
+    }
+    History { min_size, threads, end_add: vec![true, rng.bool()] }
+}
+
 fn gen_history(rng: &mut Rng, miri: bool) -> History {
+    if miri {
+        return gen_history_miri(rng);
+    }
     let n_threads = if miri { 2 } else { *rng.choose(&[1usize, 2, 2, 2, 3, 3, 4, 4]) };
     let total_ops = if miri { 12 } else { rng.urange(20, 200) };
     let min_size = if miri {
